@@ -62,6 +62,20 @@ func verifC18PerrOut(e *conformancev1.Error) vsx {
 	return vL(vI(int64(int32(e.Code))), msg, verifC18Anys(e.Details))
 }
 
+// the source of a conversion is re-used: detail bytes overwritten in place, a detail appended
+func verifC18ScribbleErr(e *conformancev1.Error) {
+	if e == nil {
+		return
+	}
+	for _, d := range e.Details {
+		for i := range d.Value {
+			d.Value[i] ^= 0xff
+		}
+		d.Value = append(d.Value, '#')
+	}
+	e.Details = append(e.Details, &anypb.Any{TypeUrl: "scribbled", Value: []byte("#")})
+}
+
 type verifC18Wrapper struct {
 	text  string
 	inner error
@@ -73,7 +87,9 @@ func (w *verifC18Wrapper) Unwrap() error { return w.inner }
 // kind text perr -> ((status view)? (proto again)?)
 func verifC18ErrGrpc(args []vsx) vsx {
 	kind, text := args[0].i, args[1].str()
-	gerr := ConvertProtoToGrpcError(verifC18Perr(args[2]))
+	perr := verifC18Perr(args[2])
+	gerr := ConvertProtoToGrpcError(perr)
+	verifC18ScribbleErr(perr) // the source is re-used: the status must hold details of its own
 	view := vL()
 	if gerr != nil {
 		st, ok := status.FromError(gerr)
@@ -95,6 +111,7 @@ func verifC18ErrGrpc(args []vsx) vsx {
 		err = &verifC18Wrapper{text: text, inner: gerr}
 	}
 	back := ConvertGrpcToProtoError(err)
+	verifC18ScribbleErr(ConvertGrpcToProtoError(err)) // so is a sibling result
 	if back == nil {
 		return vL(view, vL())
 	}
